@@ -417,6 +417,20 @@ func gen(a hx.Args) {
 	for i := 0; i < a.N(2, 8); i++ {
 		genBoundary(r, true)
 	}
+	if a.Tier == "thorough" {
+		// regression (fixed by /repo d9ff59f): version unknown, written v13, 2 short-named topics x 127 partitions x one 2 MiB
+		// record, 130-byte transactional id, limit = the accounted length of the whole request before the fix (532697885):
+		// it was admitted whole and written one byte over. About half a gigabyte: lengths only, thorough tier only.
+		var sb strings.Builder
+		n := 0
+		for t := 0; t < 2; t++ {
+			for p := 0; p < 127; p++ {
+				fmt.Fprintf(&sb, " 74%02x %s %d 0 1 1700000000000 - ~2097152x61 0", 0x30+t, strings.Repeat(fmt.Sprintf("%02x", t+1), 16), p)
+				n++
+			}
+		}
+		hx.Emit("reqlen 13 -1 1 -1 10000 532697885 4194304 5 0 ~130x78 6b676f none 7 %d%s", n, sb.String())
+	}
 	for i := 0; i < a.N(3, 30); i++ {
 		hx.Emit("wire %d %d %d %d %d", 3+r.Intn(11), hx.Pick(r, []int64{1024, 2048, 4096}), 20+r.Intn(120), r.Intn(30), 1+r.Intn(12))
 	}
